@@ -293,8 +293,7 @@ func (x Expr) Get(data any) (results []any) {
 				switch tv := prev.(type) {
 				case map[string]any:
 					// Put prev back and slide fi.
-					stack[len(stack)-1] = prev
-					stack = append(stack, di|descentFlag)
+					stack = append(stack, prev, di|descentFlag)
 					if int(fi) == len(x)-1 { // last one
 						for _, v = range tv {
 							results = append(results, v)
@@ -319,8 +318,7 @@ func (x Expr) Get(data any) (results []any) {
 					}
 				case []any:
 					// Put prev back and slide fi.
-					stack[len(stack)-1] = prev
-					stack = append(stack, di|descentFlag)
+					stack = append(stack, prev, di|descentFlag)
 					if int(fi) == len(x)-1 { // last one
 						results = append(results, tv...)
 					}
@@ -345,8 +343,7 @@ func (x Expr) Get(data any) (results []any) {
 				case Keyed:
 					keys := tv.Keys()
 					// Put prev back and slide fi.
-					stack[len(stack)-1] = prev
-					stack = append(stack, di|descentFlag)
+					stack = append(stack, prev, di|descentFlag)
 					if int(fi) == len(x)-1 { // last one
 						for _, k := range keys {
 							v, _ := tv.ValueForKey(k)
@@ -374,8 +371,7 @@ func (x Expr) Get(data any) (results []any) {
 				case Indexed:
 					size := tv.Size()
 					// Put prev back and slide fi.
-					stack[len(stack)-1] = prev
-					stack = append(stack, di|descentFlag)
+					stack = append(stack, prev, di|descentFlag)
 					if int(fi) == len(x)-1 { // last one
 						for i := 0; i < size; i++ {
 							results = append(results, tv.ValueAtIndex(i))
@@ -401,8 +397,7 @@ func (x Expr) Get(data any) (results []any) {
 					}
 				case gen.Object:
 					// Put prev back and slide fi.
-					stack[len(stack)-1] = prev
-					stack = append(stack, di|descentFlag)
+					stack = append(stack, prev, di|descentFlag)
 					if int(fi) == len(x)-1 { // last one
 						for _, v = range tv {
 							results = append(results, v)
@@ -417,8 +412,7 @@ func (x Expr) Get(data any) (results []any) {
 					}
 				case gen.Array:
 					// Put prev back and slide fi.
-					stack[len(stack)-1] = prev
-					stack = append(stack, di|descentFlag)
+					stack = append(stack, prev, di|descentFlag)
 					if int(fi) == len(x)-1 { // last one
 						for _, v = range tv {
 							results = append(results, v)
@@ -434,8 +428,7 @@ func (x Expr) Get(data any) (results []any) {
 					}
 				default:
 					got := reflectGetWild(tv)
-					stack[len(stack)-1] = prev
-					stack = append(stack, di|descentFlag)
+					stack = append(stack, prev, di|descentFlag)
 					if int(fi) == len(x)-1 { // last one
 						for i := len(got) - 1; 0 <= i; i-- {
 							results = append(results, got[i])
@@ -1159,8 +1152,7 @@ func (x Expr) FirstFound(data any) (any, bool) {
 				switch tv := prev.(type) {
 				case map[string]any:
 					// Put prev back and slide fi.
-					stack[len(stack)-1] = prev
-					stack = append(stack, di|descentFlag)
+					stack = append(stack, prev, di|descentFlag)
 					if int(fi) == len(x)-1 { // last one
 						for _, v = range tv {
 							return v, true
@@ -1184,8 +1176,7 @@ func (x Expr) FirstFound(data any) (any, bool) {
 					}
 				case []any:
 					// Put prev back and slide fi.
-					stack[len(stack)-1] = prev
-					stack = append(stack, di|descentFlag)
+					stack = append(stack, prev, di|descentFlag)
 					if int(fi) == len(x)-1 { // last one
 						if 0 < len(tv) {
 							return tv[0], true
@@ -1211,8 +1202,7 @@ func (x Expr) FirstFound(data any) (any, bool) {
 				case Keyed:
 					keys := tv.Keys()
 					// Put prev back and slide fi.
-					stack[len(stack)-1] = prev
-					stack = append(stack, di|descentFlag)
+					stack = append(stack, prev, di|descentFlag)
 					if int(fi) == len(x)-1 { // last one
 						if 0 < len(keys) {
 							return tv.ValueForKey(keys[0])
@@ -1261,8 +1251,7 @@ func (x Expr) FirstFound(data any) (any, bool) {
 					}
 				case gen.Object:
 					// Put prev back and slide fi.
-					stack[len(stack)-1] = prev
-					stack = append(stack, di|descentFlag)
+					stack = append(stack, prev, di|descentFlag)
 					if int(fi) == len(x)-1 { // last one
 						for _, v = range tv {
 							return v, true
@@ -1277,8 +1266,7 @@ func (x Expr) FirstFound(data any) (any, bool) {
 					}
 				case gen.Array:
 					// Put prev back and slide fi.
-					stack[len(stack)-1] = prev
-					stack = append(stack, di|descentFlag)
+					stack = append(stack, prev, di|descentFlag)
 					if int(fi) == len(x)-1 { // last one
 						if 0 < len(tv) {
 							return tv[0], true
@@ -1294,8 +1282,7 @@ func (x Expr) FirstFound(data any) (any, bool) {
 					}
 				default:
 					got := reflectGetWild(tv)
-					stack[len(stack)-1] = prev
-					stack = append(stack, di|descentFlag)
+					stack = append(stack, prev, di|descentFlag)
 					if int(fi) == len(x)-1 { // last one
 						if 0 < len(got) {
 							return got[0], true
